@@ -141,6 +141,18 @@ def run(ctx):
         for n in got:
             if n not in produced:
                 acc.failure("C20:config_name_maps_to_a_name_the_decoder_never_produces", dict(case, name=n), "%r -> %r" % (name, got))
+        # ... and they must be the names of THAT key: what the decoder calls ESC + character / the 8-bit Meta byte for M-<character>,
+        # the control byte for C-<letter> (the decoder itself is the model; upper and lower case are different keys)
+        from curtsies import events as _ev
+
+        want = None
+        if name.startswith("M-") and len(name) == 3:
+            ch = name[2]
+            want = {_ev.get_key([b"\x1b", ch.encode()], "utf-8", keynames=_ev.Keynames.CURTSIES, full=True), _ev.get_key([bytes([ord(ch) | 0x80])], "latin-1", keynames=_ev.Keynames.CURTSIES, full=True)}
+        elif name.startswith("C-") and len(name) == 3:
+            want = {_ev.get_key([bytes([ord(name[2].upper()) & 0x1F])], "utf-8", keynames=_ev.Keynames.CURTSIES, full=True)}
+        if want is not None and set(got) != want:
+            acc.failure("C20:config_name_maps_to_another_key", case, "%r -> %r, the decoder calls that key %r" % (name, got, sorted(want)))
     # the mapping of a name is a function of the name: after thousands of other accepted lookups on the same keymap object (and on a
     # second KeyMap object) every name must still map to what it mapped to at first
     from curtsies.configfile_keynames import KeyMap
